@@ -140,6 +140,20 @@ claim("C17", "proof", "Lean 4 theorems (tiling, extract/combine identities, neig
       COMMON_NOTE + "Partial: MPI transport (mpi4py absent) is emulated serially, not modelled; operator bodies belong to C01.",
       "DESIGN.md section 6, C17; notes/C17.md")
 
+claim("C14", "proof", "Lean 4 round-trip theorems over grid/field/collection records + model/code correspondence",
+      "Constructors, state (incl. scalar-iff-no-hole radius, UnitGrid's shape-only state), the JSON value tree, from_state, copy "
+      "and __eq__ of the five grid classes, field and collection attributes, and FieldCollection.from_data with its slice layout "
+      "are modelled (Model/Serialize.lean, on top of C12's grid records); 64 theorems: fromState(state g) = g and the JSON "
+      "round trip for every valid grid of every class, copy equality, state injectivity, derived quantities (axes, spacing, "
+      "cell volumes) determined by the parameters, attribute round trips by induction over the field list, from_data "
+      "reproduces every component of every field for any list of ranks on every grid class with and without ghost cells, "
+      "slice offsets are prefix sums, disjoint and covering; witnesses that the pre-fix state of annular cylinders is not "
+      "injective and that num_axes**rank slicing misplaces components. ~14k real objects per quick run are compared with the "
+      "model (exact in Rat mode, bit-exact in Float mode) through from_state, JSON, copy, deepcopy, pickle, attributes and "
+      "from_data; a malformed stream checks error classes.",
+      COMMON_NOTE + "JSON text encoding of floats is trusted; numpy astype is abstract in the theorems; pickle is monitored on "
+      "the real code only.", "DESIGN.md section 6, C14; notes/C14.md")
+
 # properties not (yet) decided by the machinery
 NOT_APPLICABLE = {}
 
